@@ -180,18 +180,19 @@ _WORLD = {
     'C16': ((2, 3, 4), (2, 4, 6)),
     'C17': ((2, 2, 5), (2, 3, 7)),
     'C18': ((2, 0, 4), (2, 0, 6)),
-    'C19': ((2, 0, 6), (3, 0, 8)),
+    'C19': ((2, 1, 4), (3, 1, 6)),
     'C20': ((2, 1, 3), (2, 2, 5)),
 }
 # dedup history window (last k operations in the key) of the quick tier where it is affordable; thorough always uses 2
-_WORLD_K = {'C07': 2, 'C15': 2, 'C03': 2}
+_WORLD_K = {'C15': 2, 'C03': 2}
 # extra runs (modules, deviations, depth) per tier: wider populations at smaller depth
 _WORLD_EXTRA = {
     'C02': ([(3, 1, 3)], [(3, 1, 4)]),
     'C08': ([(3, 0, 3)], []),
-    'C19': ([(3, 0, 4)], []),
+    'C19': ([(3, 0, 4), (2, 0, 6)], []),
     'C01': ([(3, 1, 4)], []),
 }
+_WORLD_EXTRA_PROFILE = {'C03': (('C03E', 2, 0, 3), ('C03E', 2, 0, 5))}     # signal / path / pid events
 for _p, (_q, _t) in _WORLD.items():
     _xq, _xt = _WORLD_EXTRA.get(_p, ([], []))
     CHECKS[_p] = dict(title=_p, parallel=1, rule='BFS over histories of the %s profile of harness/world.c (see DESIGN.md 6/%s): dedup on (canonical monitor state, last k ops), 2 probe suffixes per new state' % (_p, _p),
@@ -200,6 +201,11 @@ for _p, (_q, _t) in _WORLD.items():
                       assumptions=['single thread, one context', 'real kernel pipes/epoll, virtual time through the link-time shim', 'handles passed are live references owned by the caller'],
                       parts=[world_part('w', quick=[_w(_p, _q[0], _q[1], _q[2], 250, _WORLD_K.get(_p, 1))] + [_w(_p, x[0], x[1], x[2], 200) for x in _xq],
                                         thorough=[_w(_p, _t[0], _t[1], _t[2], 1200, 2)] + [_w(_p, x[0], x[1], x[2], 600, 2) for x in _xt])])
+    if _p in _WORLD_EXTRA_PROFILE:
+        _eq, _et = _WORLD_EXTRA_PROFILE[_p]
+        CHECKS[_p]['parts'][0]['quick'].append(_w(_eq[0], _eq[1], _eq[2], _eq[3], 200))
+        CHECKS[_p]['parts'][0]['thorough'].append(_w(_et[0], _et[1], _et[2], _et[3], 600, 2))
+        CHECKS[_p]['bounds']['quick'] += '; profile %s modules=%d depth=%d' % (_eq[0], _eq[1], _eq[3])
 
 
 def _c14_runs(threads, prog, budget, dl, foreign=0, workers=8):
